@@ -22,7 +22,16 @@ import (
 	"golang.org/x/tools/go/ssa/ssautil"
 )
 
-const repoDir = "/repo"
+var repoDir = repoDirFromEnv()
+
+// repoDirFromEnv: the registered checks always analyse /repo; RUXSYM_REPO is a
+// development aid for running a check against a scratch worktree.
+func repoDirFromEnv() string {
+	if d := os.Getenv("RUXSYM_REPO"); d != "" {
+		return d
+	}
+	return "/repo"
+}
 const verifDir = "/verif"
 const ruxPath = "github.com/gookit/rux"
 
